@@ -28,7 +28,7 @@ func exec(op string) vlib.Res {
 	switch f[0] {
 	case "rw", "wg", "res", "burst", "eff", "proc":
 		return execLocal(op)
-	case "inl", "bw", "zl", "gl", "tcpclass", "accept":
+	case "inl", "bw", "zl", "gl", "tcpclass", "accept", "conncap", "fill", "dialer":
 		return execLocal(op)
 	case "dedup", "sys", "ing":
 		if os.Getenv("C11_NOCHILD") != "" {
@@ -61,6 +61,12 @@ func execLocal(op string) vlib.Res {
 		return execTCPClass(f)
 	case "accept":
 		return execAccept(f)
+	case "conncap":
+		return execConnCap(f)
+	case "fill":
+		return execFill(f)
+	case "dialer":
+		return execDialer(f)
 	case "zl":
 		return execZL(f)
 	case "gl":
